@@ -132,11 +132,19 @@ impl<'a> Sd<'a> {
         );
         check(
             "bincode(standard)",
-            fault::catch(|| bincode::serde::decode_from_slice::<Map<K, V, M>, _>(bytes_std, bincode::config::standard()).map(|x| x.0).map_err(|e| e.to_string())),
+            fault::catch(|| {
+                bincode::serde::decode_from_slice::<Map<K, V, M>, _>(bytes_std, bincode::config::standard())
+                    .map_err(|e| e.to_string())
+                    .and_then(|(x, used)| if used == bytes_std.len() { Ok(x) } else { Err(format!("decoding consumed {} of the {} encoded bytes", used, bytes_std.len())) })
+            }),
         );
         check(
             "bincode(legacy)",
-            fault::catch(|| bincode::serde::decode_from_slice::<Map<K, V, M>, _>(bytes_legacy, bincode::config::legacy()).map(|x| x.0).map_err(|e| e.to_string())),
+            fault::catch(|| {
+                bincode::serde::decode_from_slice::<Map<K, V, M>, _>(bytes_legacy, bincode::config::legacy())
+                    .map_err(|e| e.to_string())
+                    .and_then(|(x, used)| if used == bytes_legacy.len() { Ok(x) } else { Err(format!("decoding consumed {} of the {} encoded bytes", used, bytes_legacy.len())) })
+            }),
         );
     }
 
@@ -264,7 +272,23 @@ impl<'a> Sd<'a> {
         );
         check(
             "bincode(standard)",
-            fault::catch(|| bincode::serde::decode_from_slice::<Set<T, M>, _>(bytes_std, bincode::config::standard()).map(|x| x.0).map_err(|e| e.to_string())),
+            fault::catch(|| {
+                bincode::serde::decode_from_slice::<Set<T, M>, _>(bytes_std, bincode::config::standard())
+                    .map_err(|e| e.to_string())
+                    .and_then(|(x, used)| if used == bytes_std.len() { Ok(x) } else { Err(format!("decoding consumed {} of the {} encoded bytes (the rest of an enclosing value would be misread)", used, bytes_std.len())) })
+            }),
+        );
+        // the container embedded in a larger value: what follows it must still decode
+        check(
+            "bincode(standard) of (container, marker)",
+            fault::catch(|| {
+                let enc = bincode::serde::encode_to_vec((orig, 0xA5A5_5A5Au32), bincode::config::standard()).map_err(|e| e.to_string())?;
+                let ((x, marker), used): ((Set<T, M>, u32), usize) = bincode::serde::decode_from_slice(&enc, bincode::config::standard()).map_err(|e| e.to_string())?;
+                if marker != 0xA5A5_5A5A || used != enc.len() {
+                    return Err(format!("the value following the set decoded as {:#x} ({} of {} bytes consumed)", marker, used, enc.len()));
+                }
+                Ok(x)
+            }),
         );
     }
 
